@@ -13,6 +13,7 @@ and the Rust decoders were observed to do."""
 import json
 import os
 import sys
+from concurrent.futures import ThreadPoolExecutor
 
 import vplib
 from vplib import clist
@@ -360,6 +361,54 @@ class Gen:
         self.count("illformed_scripts")
         return {"kind": "illformed", "wf": False, "ops": ops}
 
+    def policy_paths(self):
+        """the start-up installer and the run-time updater mixed on the same endpoints, connects after every change"""
+        r = self.rng
+        procs = self.processes((1, 3), (1, 2))
+        ts = [t for p in procs for t in p]
+        sports = set()
+        ops = []
+        eps = r.sample(self.endpoints, r.randint(1, 3))
+        state = {}
+        for _ in range(r.randint(3, 7)):
+            ip, port = r.choice(eps)
+            if state.get((ip, port)) and r.random() < 0.6:
+                ops.append({"op": "AP-", "ip": ip, "port": port, "lp": state[(ip, port)]})
+                state.pop((ip, port))
+            else:
+                lp = self.local_port()
+                ops.append({"op": "AP+", "ip": ip, "port": port, "lp": lp, "via": r.choice(("elem", "elem", "redirect"))})
+                state[(ip, port)] = lp
+            for _ in range(r.randint(1, 2)):
+                ops += self.connect_ops(r.choice(ts), sports, (ip, port, TCP))
+            if r.random() < 0.3:
+                ops += self.connect_ops(r.choice(ts), sports)
+        self.count("policy_path_scripts")
+        return {"kind": "policy_paths", "wf": True, "ops": ops}
+
+    def burst_mid(self):
+        """more threads in flight than a machine has CPUs, far below the declared local_map capacity"""
+        r = self.rng
+        n = min(r.choice([17, 33, 65, 70, 129]), max(1, self.caps["local"] - 1))
+        used = set()
+        ts = []
+        while len(ts) < n:
+            tgid = self.new_id(used)
+            uid, gid = self.cred(), self.cred()
+            ts.append((tgid, tgid, uid, gid))
+            for _ in range(r.randint(0, 3)):
+                if len(ts) < n:
+                    ts.append((tgid, self.new_id(used), uid, gid))
+        ip, port = r.choice(self.endpoints)
+        ops = [{"op": "AP+", "ip": ip, "port": port, "lp": self.proxy_port}]
+        for t in ts:
+            ops.append({"op": "C4", "t": t, "ip": ip, "port": port, "proto": TCP})
+        r.shuffle(ts)
+        for t, p in zip(ts, r.sample(range(1024, 65536), len(ts))):
+            ops.append({"op": "TC", "t": t, "sport": p})
+        self.count("burst_mid_threads", n)
+        return {"kind": "burst_mid", "wf": True, "ops": ops}
+
     def f4_witness(self, uid, gid):
         ip, port = self.endpoints[0]
         t = (100, 101, uid, gid)
@@ -413,9 +462,10 @@ MAPOPS = {("update", "policy_map"): ("P+", "EPolicyUpdate"), ("delete", "policy_
           ("lookup", "audit_map"): ("A?", "EAuditLookup")}
 
 
-def concretise(script, enc, odd):
+def concretise(script, answers, odd):
     """-> (driver lines, Coq term of type `list line`, spans) where spans[i] = (first line, count) of op i.
-    An agent-level op becomes the bpf(2) map operations the agent's real code was recorded to issue.
+    An agent-level op becomes the bpf(2) map operations the agent's real code was recorded to issue when the
+    script's agent operations were run IN SEQUENCE on one freshly loaded BpfObject (answers, in order).
     Tasks, addresses and key/value images are let-bound once per script (Coq reads a 32-bit literal in
     ~0.2 ms)."""
     lines, terms, spans = [], [], []
@@ -443,12 +493,13 @@ def concretise(script, enc, odd):
         else:
             lines.append("%s %s" % (code, ws(k)))
             terms.append("LEvent (%s %s)" % (ctor, cw(k)))
+    answers = iter(answers)
     for o in script["ops"]:
         op = o["op"]
         first = len(lines)
         r = req_of(o)
         if r is not None:
-            for cmd, mp, k, v, flags in enc[r]["ops"]:
+            for cmd, mp, k, v, flags in next(answers)["ops"]:
                 mo = MAPOPS.get((cmd, mp[:15]))
                 if mo is None or flags != 0:
                     odd.append({"case": {"agent_op": r}, "model": "one map operation with flags 0 on the operation's own map",
@@ -503,7 +554,11 @@ def property_failures(script, lines, spans, louts, ldumps, enc, decode, caps, pr
         li = min(spans[i][0], len(lines) - 1)
         fails.append({"case": {"script": lines, "line": li, "op": lines[li] if lines else None, "agent_op": req_of(script["ops"][i]),
                                "kind": script["kind"],
-                               "replay": "feed the script lines to ebpf_user/build/driver (user-space build of the unmodified ebpf_cgroup.c)"},
+                               "agent_ops_in_order": [req_of(x) for x in script["ops"] if req_of(x)],
+                               "loader_max_entries(policy,skip,audit,local)": f4_stats.get("caps_line"),
+                               "replay": "agent side: harness c06 binary, `BEGIN <maps-only object>` then agent_ops_in_order (prints the map "
+                                         "operations the real BpfObject methods issue); kernel side: feed `CAPS <loader_max_entries>` and the "
+                                         "script lines to ebpf_user/build/driver (user-space build of the unmodified ebpf_cgroup.c)"},
                       "why": why, "impl": impl, "f4": f4})
 
     def judge_record(i, sport, exp, words, where):
@@ -532,14 +587,16 @@ def property_failures(script, lines, spans, louts, ldumps, enc, decode, caps, pr
         done = cnt > 0 and all(louts[j] == [0] for j in range(first, first + cnt))   # the agent's map operations succeeded
         pol_b, skip_b, audit_b, local_b = prev
         pol_a, skip_a, audit_a, local_a = cur
+        # the policy is what the agent INTENDS at that time: an operation that issues no map operation at all, or
+        # the wrong one, does not change the intention; only a refused insert (map full, the property's own bound)
+        # excuses a missing entry
         if op == "AP+":
-            if done:
+            if done or cnt == 0:
                 listed[(o["ip"], o["port"])] = o["lp"]
         elif op == "AP-":
-            if done:
-                listed.pop((o["ip"], o["port"]), None)
+            listed.pop((o["ip"], o["port"]), None)
         elif op == "AS":
-            if done:
+            if done or cnt == 0:
                 skipped.add(o["pid"])
                 for k, f in flight.items():
                     if k[0] == o["pid"]:
@@ -684,15 +741,40 @@ def run(ctx):
         t_hash, t_lru = info[16], info[17]
         caps = {n: geo[n]["max_entries"] for n in geo}
         mapobj = build_map_object(ctx, geo)
+        loaded = {}     # what the agent's loader asked the kernel to create (BPF_MAP_CREATE seen by the stand-in)
 
         def rust(reqs):
             out = [l[3:] for l in vplib.run_lines(bins["c06"], ["LOAD " + mapobj] + reqs) if l.startswith("@@ ")]
             if len(out) != len(reqs) + 1:
                 raise RuntimeError("c06 harness answered %d of %d requests" % (len(out), len(reqs) + 1))
-            if json.loads(out[0]) != "ok":
+            first = json.loads(out[0])
+            if not first.get("ok"):
                 raise vplib.Violation("BpfObject::from_ebpf_file refuses an object that carries only the four maps: " + out[0],
                                       {"kind": "harness-build", "detail": out[0]}, no_input=True)
+            loaded.update({m[0][:15]: m[1:] for m in first["maps"]})
             return [json.loads(x) for x in out[1:]]
+
+        def rust_sessions(per_script):
+            """per_script: for every script the agent requests in order -> for every script the answers, obtained on
+            one freshly loaded BpfObject per script whose (stand-in) kernel maps keep their content"""
+            def one(chunk):
+                reqs = []
+                for rs in chunk:
+                    reqs += ["BEGIN " + mapobj] + rs + ["END"]
+                out = [l[3:] for l in vplib.run_lines(bins["c06"], reqs, timeout=1200) if l.startswith("@@ ")]
+                if len(out) != len(reqs):
+                    raise RuntimeError("c06 harness answered %d of %d session requests" % (len(out), len(reqs)))
+                res, pos = [], 0
+                for rs in chunk:
+                    res.append([json.loads(x) for x in out[pos + 1:pos + 1 + len(rs)]])
+                    pos += len(rs) + 2
+                return res
+            # loading the object costs ~35 ms (the loader reads the running kernel's BTF): spread over processes
+            nproc = 8
+            size = (len(per_script) + nproc - 1) // nproc or 1
+            chunks = [per_script[i:i + size] for i in range(0, len(per_script), size)]
+            with ThreadPoolExecutor(max_workers=nproc) as ex:
+                return [r for part in ex.map(one, chunks) for r in part]
 
         probe = rust(["K 1 1", "S 1", "AK 1"])
         want_geo = {"policy": (t_hash, 4 * len(probe[0]), 4 * len(probe[0]), consts["ebpf_policy_map_max_entries"]),
@@ -706,15 +788,27 @@ def run(ctx):
                                       "model": want_geo[n], "impl": got})
         klen = {n: geo[n]["key_size"] // 4 for n in geo}
         klens = [klen[n] for n in names]
+        # the kernel creates the maps the LOADER asks for: the C program runs on maps of that size
+        mapname = {"policy": "policy_map", "skip": "skip_process_ma", "audit": "audit_map", "local": "local_map"}
+        loaded_caps = []
+        for n in names:
+            decl = [geo[n]["type"], geo[n]["key_size"], geo[n]["value_size"], geo[n]["max_entries"]]
+            got = loaded.get(mapname[n])
+            if got != decl:
+                disagreements.append({"case": {"map": n, "what": "geometry BpfObject::from_ebpf_file asks the kernel for vs the declaration in ebpf_cgroup.c"},
+                                      "model": decl, "impl": got})
+            loaded_caps.append(got[3] if got else geo[n]["max_entries"])
 
         # ---------------- scripts ----------------
         g = Gen(rng, consts, caps)
-        nnormal, nburst, nill = (1200, 2, 200) if ctx.quick else (9000, 10, 1500)
+        nnormal, nburst, nill = (1100, 2, 200) if ctx.quick else (9000, 10, 1500)
         scripts = [g.f4_witness(1000, 0), g.f4_witness(0, 1000), g.f4_witness(1000, 1000), g.f4_witness(0, 0)]
         scripts += [g.normal() for _ in range(nnormal)]
         for _ in range(nburst):
             scripts += [g.burst_local(), g.burst_audit()]
         scripts += [g.map_caps() for _ in range(nburst * 6)]
+        scripts += [g.policy_paths() for _ in range(nnormal // 8)]
+        scripts += [g.burst_mid() for _ in range(nburst * 3)]
         scripts += [g.illformed() for _ in range(nill)]
         corpus_dir = os.path.join(vplib.VERIF, "corpus", "C06")
         if os.path.isdir(corpus_dir):
@@ -732,7 +826,8 @@ def run(ctx):
         reqs = needs(scripts)
         enc = dict(zip(reqs, rust(reqs)))
         odd = []
-        conc = [concretise(s, enc, odd) for s in scripts]
+        sess = rust_sessions([[req_of(o) for o in s["ops"] if req_of(o)] for s in scripts])
+        conc = [concretise(s, a, odd) for s, a in zip(scripts, sess)]
         seen_odd = set()
         for d in odd:
             if d["case"]["agent_op"] not in seen_odd:
@@ -740,7 +835,7 @@ def run(ctx):
                 disagreements.append(d)
 
         # ---------------- implementation: the unmodified C program ----------------
-        all_lines = []
+        all_lines = ["CAPS %d %d %d %d" % tuple(loaded_caps)]
         for lines, _t, _sp in conc:
             all_lines.append("RESET")
             all_lines += lines
@@ -748,7 +843,7 @@ def run(ctx):
         if len(raw) != len(all_lines):
             raise RuntimeError("driver answered %d of %d lines" % (len(raw), len(all_lines)))
         impl = []
-        pos = 0
+        pos = 1
         for lines, _t, _sp in conc:
             pos += 1
             per = []
@@ -757,7 +852,7 @@ def run(ctx):
                 per.append(([abs(x) for x in r[0]], r[0], r[1:]))
                 pos += 1
             impl.append(per)
-        ctx.log("driver: %d scripts, %d lines" % (len(scripts), len(all_lines) - len(scripts)))
+        ctx.log("driver: %d scripts, %d lines" % (len(scripts), len(all_lines) - len(scripts) - 1))
 
         # ---------------- model: the same scripts by vm_compute ----------------
         prelude = ("Definition T a b c d := {| tgid := a; tid := b; uid := c; gid := d |}.\n"
@@ -914,7 +1009,7 @@ def run(ctx):
                 failures.append({"case": {"ip": ip, "string": a}, "why": "string_to_ip(ip_to_string(%#x)) = %#x" % (ip, back), "impl": back})
 
         # ---------------- the property on the implementation's observed behaviour ----------------
-        f4_stats = {"seen": 0, "protected": 0, "protected_uid_ne_gid": 0}
+        f4_stats = {"seen": 0, "protected": 0, "protected_uid_ne_gid": 0, "caps_line": loaded_caps}
         judged = 0
         for s, (lines, _t, spans), per in zip(scripts, conc, impl):
             if not s["wf"]:
@@ -945,9 +1040,12 @@ def run(ctx):
         "evaluations": total_lines + nenc + ndec + nstr + nagent,
         "distinct_nontrivial": f4_stats["protected"] + len({tuple(c[0]) for c in conc}),
         "traces_validated_against_impl": agree,
-        "rule": "scripts of P+/P-/S/A?/A-/C4/TC/TCX lines run by the unmodified ebpf_cgroup.c (user-space build) and by the model; the agent's "
-                "operations in a script are the bpf(2) map operations its REAL functions (update_policy_elem_bpf_map, update_redirect_policy, "
-                "update_skip_process_map, remove_audit_map_entry, lookup_audit on a BpfObject loaded by from_ebpf_file) were recorded to issue; "
+        "rule": "scripts of P+/P-/S/A?/A-/C4/TC/TCX lines run by the unmodified ebpf_cgroup.c (user-space build, maps sized as the agent's loader "
+                "asked the kernel: BPF_MAP_CREATE) and by the model; the agent's operations in a script are the bpf(2) map operations its REAL "
+                "functions (update_policy_elem_bpf_map, update_redirect_policy, update_skip_process_map, remove_audit_map_entry, lookup_audit) were "
+                "recorded to issue when run IN SEQUENCE on one BpfObject freshly loaded by from_ebpf_file per script (start-up installer and run-time "
+                "updater mixed on the same endpoints); a connect must be diverted iff its destination is in the policy the agent INTENDS at that time; "
+                "bursts of 17..129 threads in flight; "
                 "a rolling digest absorbs the outputs and the dump of all four maps after EVERY line and is compared per script (first differing line "
                 "located on mismatch); 1-6 processes x 1-3 threads, uid/gid independently from {0,1000,65534,2^32-1}, the three protected endpoints and "
                 "near misses (UDP, other port, byte-swapped port, other ip, the proxy itself, random), uniform interleavings with agent operations in "
@@ -968,6 +1066,7 @@ def run(ctx):
                                    f4_pattern_observed=f4_stats["seen"], audit_values_produced_by_c=produced, decoder_cases=ndec,
                                    encoder_cases=nenc, agent_operation_cases=nagent, string_cases=nstr),
         "map_geometry": geo,
+        "map_geometry_requested_by_loader": loaded,
         "uid_shift_sites": {"connect4": shifts[0], "tcp_connect": shifts[1]},
         "f4_class_empty_full_strength_theorem_live": shifts == (0, 0),
     })
